@@ -660,6 +660,28 @@ class Program:
                 if not g.get('decl'):
                     yield u, g
 
+    @staticmethod
+    def array(g):
+        """initialiser of a global array as a flat list; a partially initialised array is emitted by clang as a packed
+        struct of two arrays (<{ [k x T], [n-k x T] }>) and is flattened here"""
+        init = g.get('init')
+        if init is None:
+            return None
+        if g['type'].startswith('<{') and all(isinstance(x, list) for x in init):
+            out = []
+            for part in init:
+                out.extend(part)
+            return out
+        return init
+
+    @staticmethod
+    def array_len(g):
+        import re as _re
+        if g['type'].startswith('<{'):
+            return sum(int(n) for n in _re.findall(r'\[(\d+) x ', g['type']))
+        m = _re.match(r'\[(\d+) x ', g['type'])
+        return int(m.group(1)) if m else None
+
     def table(self, u, g):
         """decode a global array-of-struct initialiser into list of dicts keyed by DI field name"""
         ty = g['type']
